@@ -190,10 +190,11 @@ void eval_point(Point& p, int32_t lonc, int32_t latc, uint32_t locmask, Local& l
     if (lonc == LON_MIN) ++l.lon_m180;
     if (latc > DOC_LAT || latc < -DOC_LAT) ++l.outside_doc_lat;
     if (!std::isfinite(p.m.y)) ++l.info_nonfinite_y;
-    // informational: would the row number at the maximum zoom fit an int32 before clamping?
+    // informational: would the exact row number at the maximum zoom, (pi*R - y) / (2*pi*R / 2^zmax), fit an int32 before clamping?
     {
-        const long double row = (20037508.342789244L - static_cast<long double>(p.m.y)) / (40075016.685578488L / static_cast<long double>(uint64_t{1} << ZMAX));
-        if (!(row < 2147483648.0L && row > -2147483649.0L)) ++l.info_row_exceeds_int32;
+        static const double y_lo = static_cast<double>(PI_L * R_L - 2147483648.0L * (2 * PI_L * R_L / static_cast<long double>(uint64_t{1} << ZMAX)));
+        static const double y_hi = static_cast<double>(PI_L * R_L + 2147483649.0L * (2 * PI_L * R_L / static_cast<long double>(uint64_t{1} << ZMAX)));
+        if (!(p.m.y > y_lo && p.m.y < y_hi)) ++l.info_row_exceeds_int32;
     }
 }
 
@@ -347,7 +348,7 @@ void lat_run(int64_t first, int64_t last, int64_t stride, int32_t lonc, int64_t 
         }
         // round trips through both public entry points
         check_roundtrip(lonc, c, cur.m, "lonlat_to_mercator", l);
-        check_roundtrip(lonc, c, proj(Location{lonc, c}), "MercatorProjection", l);
+        if (sparse == 0 || (c & 3) == 0) check_roundtrip(lonc, c, proj(Location{lonc, c}), "MercatorProjection", l);
         // canonical reference
         if (refevery > 0 && n % refevery == 0) {
             check_ref_y(c, vcur, cur.m.y, l);
@@ -399,7 +400,7 @@ void lon_run(int64_t first, int64_t last, int64_t stride, int32_t latc, int64_t 
         ++l.lon_values;
         ++l.enumerated;
         check_roundtrip(c, latc, cur.m, "lonlat_to_mercator", l);
-        check_roundtrip(c, latc, proj(Location{c, latc}), "MercatorProjection", l);
+        if (sparse == 0 || (c & 3) == 0) check_roundtrip(c, latc, proj(Location{c, latc}), "MercatorProjection", l);
         if (refevery > 0 && n % refevery == 0) check_ref_x(c, latc, cur.m.x, l);
         if (have_next) {
             if (in_doc(latc)) {
